@@ -165,10 +165,12 @@ class Env(object):
         # segmented: a cell qualified by a segment selector lives in the address space named by the selector's value
         # (memory is a function of (selector, address)); off = flat model, the selector is ignored (CPU-oracle checks)
         self.segmented = segmented
+        self.memseed = None             # if set, the default content of flat memory depends on this instead of the seed (shared backing memory)
 
     def copy(self):
         e = Env(self.seed, self.ids, self.mem, self.segmented)
         e.addr_bits = self.addr_bits
+        e.memseed = self.memseed
         return e
 
     def _h(self, *k):
@@ -188,6 +190,8 @@ class Env(object):
             return self._h('ms', space, addr) & 0xff
         if addr in self.mem:
             return self.mem[addr]
+        if self.memseed is not None:
+            return int.from_bytes(hashlib.blake2b(repr((self.memseed, 'm', addr)).encode(), digest_size=16).digest(), 'big') & 0xff
         return self._h('m', addr) & 0xff
 
     def load(self, addr, nbytes, space=None):
